@@ -12,6 +12,14 @@ def hooks_commits():
 
 # id -> dict(engine, category, technique, text, note, design_ref)
 CHECKS = {
+ "C05": dict(engine="h_reg", category="model_checking", design="§3 C05",
+   technique="explicit-state BFS over span-lifecycle histories on a real Registry stack (fresh process per history, de-duplicated + no-dedup cross-check) + preemption-bounded exhaustive schedule exploration of the reference-count operations on real threads",
+   text="All histories up to the stated depth over a forest of spans (create with contextual/explicit/no parent, clone, drop, enter, exit in any order incl. re-entry, Span::current captures, drops on either thread, thread default switched to another Registry stack or none) run on Registry + 2 recording layers; after every step the close notifications of both layers must equal a reference-count model (exactly once, at the step the last handle/entry/child goes, children first, data readable in on_close and equal to what was stored at creation, nothing stale in a reused slot, closed spans gone, live ids distinct, other registry untouched). Drop||drop, cascade||drop, exit||drop, clone||drop, capture||drop races are explored over every interleaving up to the preemption bound.",
+   note="SC at hook granularity (points before/after each ref_count update, slot clear, create); Release/Acquire weakening is outside the model. Known findings F2 and F13 (exit / parent release go through dispatch::get_default) are attributed by trigger step; histories are not extended beyond a trigger."),
+ "C06": dict(engine="h_reg", category="model_checking", design="§3 C06",
+   technique="explicit-state BFS over per-thread enter/exit histories on a real Registry stack with ErrorSubscriber (fresh process per history, de-duplicated + no-dedup cross-check)",
+   text="All histories up to the stated depth of enter/exit (incl. out-of-order exits, the same span entered on two threads), span creation and events with contextual/explicit/root parents, Span::current and SpanTrace captures on 1-2 real threads; at every step lookup_current/event_span/event_scope/span.scope()/from_root() seen inside layer callbacks, the registry's current span of every thread, the stored parent and scope of every live span and the chain yielded by every captured SpanTrace must equal a per-thread-stack + forest model.",
+   note="Re-entering a span already entered on the same thread is excluded from the alphabet (as the property says). Threads are sequentially interleaved (the registry's current-span state is thread-local). C05's findings F2/F13 are not re-reported: histories are cut at their trigger steps."),
  "C01": dict(engine="h_core", category="model_checking", design="§3 C01",
    technique="explicit-state BFS over operation histories executed on the real code (fresh process per history, canonical-state de-duplication, warm non-initial roots) + preemption-bounded exhaustive schedule exploration of first-hit races",
    text="Every history up to the stated depth over {create collector with filter F, drop, install/uninstall as a thread default, set global, emit, enabled! probe, rebuild_interest_cache, flip a dynamic filter} is executed through the real macros in a fresh process; after every emission the recording collector's log must equal the verdict of a cache-free reference filter for the collector the implementation reports as current. States are merged on model state + the cached interest/registration byte of every callsite + LevelFilter::current() + per-thread default identity. First-hit races are explored under the controlled scheduler.",
